@@ -210,6 +210,9 @@ func (acl *ACL) DeleteUser(_ context.Context, usernames []string) error {
 		// Terminate every connection attached to this user
 		for connRef, connection := range acl.Connections {
 			if connection.User.Username == user.Username {
+				// The connection is no longer authenticated: terminating it through the read deadline is
+				// not immediate, and until it is closed it must not act as the deleted user.
+				acl.Connections[connRef] = Connection{Authenticated: false, User: connection.User}
 				_ = (*connRef).SetReadDeadline(time.Now().Add(-1 * time.Second))
 			}
 		}
